@@ -279,6 +279,15 @@ func (d *detReader) Read(p []byte) (int, error) {
 	return len(p), nil
 }
 
+type constReader byte
+
+func (c constReader) Read(p []byte) (int, error) {
+	for i := range p {
+		p[i] = byte(c)
+	}
+	return len(p), nil
+}
+
 // Sign is the reference signer: it signs tbs under alg with the key material,
 // using entropy (any bytes) for nonces/salts.
 func Sign(alg int64, km KeyMat, tbs, entropy []byte) []byte {
@@ -299,7 +308,11 @@ func Sign(alg int64, km KeyMat, tbs, entropy []byte) []byte {
 		return ed25519.Sign(km.Private().(ed25519.PrivateKey), tbs)
 	case AlgPS256, AlgPS384, AlgPS512:
 		h := HashFor(alg)
-		sig, err := rsa.SignPSS(NewEntropy(entropy), km.Private().(*rsa.PrivateKey), h, Digest(h, tbs), &rsa.PSSOptions{SaltLength: rsa.PSSSaltLengthEqualsHash})
+		// crypto/rsa may or may not consume one extra byte of the entropy stream
+		// (randutil.MaybeReadByte); a stream of one repeated byte makes the salt, and
+		// hence the signature, a pure function of (key, message, entropy) all the same
+		seed := sha512.Sum512(append([]byte("pss-salt"), entropy...))
+		sig, err := rsa.SignPSS(constReader(seed[0]), km.Private().(*rsa.PrivateKey), h, Digest(h, tbs), &rsa.PSSOptions{SaltLength: rsa.PSSSaltLengthEqualsHash})
 		if err != nil {
 			panic(err)
 		}
